@@ -153,7 +153,19 @@ def py_rat(e, env, leaves):
             return l / r
     if isinstance(e, ast.UnaryOp) and isinstance(e.op, ast.USub):
         return -py_rat(e.operand, env, leaves)
-    t = pyfe.src(e)
+    # a non-arithmetic leaf (subscript, call, attribute): keyed by its source with the known locals written out, so that
+    # `scales = T[k]; scales[u]` and `T[k][u]` are one leaf
+    class _S(ast.NodeTransformer):
+        def visit_Name(self, n):
+            if isinstance(n.ctx, ast.Load) and n.id in env:
+                try:
+                    return ast.parse(repr(env[n.id]), mode="eval").body
+                except SyntaxError:
+                    return n
+            return n
+    e2 = _S().visit(ast.parse(pyfe.src(e), mode="eval").body) if any(
+        isinstance(x, ast.Name) and x.id in env for x in ast.walk(e)) else e
+    t = pyfe.src(e2)
     leaves[t] = e
     return Rat.sym(t)
 
